@@ -139,6 +139,47 @@ def c01_asf_plain_values(ctx, checks):
                 break
 
 
+def c01_asf_stream_language(ctx, checks):
+    """attributes carrying a stream number and / or a language index keep them, whatever their name: the five names of
+    the Content Description Object (which has neither field) included -- judged by the own ASF reader"""
+    if "C01" not in checks:
+        return
+    from mutagen.asf import ASFUnicodeAttribute, ASFDWordAttribute
+    kind = KINDS["ASF"]
+    base = [(s_, d) for s_, d in kind.samples() if not s_.startswith("synth")][:2]
+    names = ["Title", "Author", "Copyright", "Description", "Rating", "WM/AlbumTitle", "QL/Foo"]
+    for sample, data in base:
+        for stream, lang in ((2, None), (1, None), (127, None), (None, 1), (3, 1), (None, None)):
+            try:
+                o = kind.open(io.BytesIO(data))
+                for i, nm in enumerate(names):
+                    kw = {}
+                    if stream is not None:
+                        kw["stream"] = stream
+                    if lang is not None:
+                        kw["language"] = lang
+                    o.tags[nm] = [ASFUnicodeAttribute("v%d %s" % (i, nm), **kw)]
+                b = io.BytesIO(data)
+                o.save(b)
+                w_ = kind.walk(b.getvalue())
+                back = kind.open(io.BytesIO(b.getvalue()))
+            except (mutagen.MutagenError, W.Bad):
+                continue
+            ctx.oracle_cases += 1
+            ctx.count("c01:asf-stream-language")
+            ctx.case(("ASF", sample, "stream-language", stream, lang))
+            got = {}
+            for _, name, lg, st, val in w_["tags"]:
+                got.setdefault(name, []).append((lg or 0, st or 0, val))
+            for i, nm in enumerate(names):
+                want = [(lang or 0, stream or 0, ("str", "v%d %s" % (i, nm)))]
+                mem = [(getattr(v, "language", None) or 0, getattr(v, "stream", None) or 0, ("str", v.value)) for v in back.tags.get(nm, [])]
+                if got.get(nm) != want or mem != want:
+                    _v(ctx, "C01", "ASF: an attribute set with a stream number / language index does not come back with them", {"kind": "ASF", "sample": sample, "key": nm,
+                       "set": repr(want), "stored": repr(got.get(nm))[:200], "reloaded": repr(mem)[:200]})
+                    return
+
+
 def c01_easy_multivalue(ctx, checks):
     """multi-valued keys through EasyID3: v2.4 keeps the values apart; v2.3 joins them with the chosen separator or keeps them
     apart when the separator is None - judged by an own frame decoder"""
@@ -439,6 +480,100 @@ def c07_v23_same_object(ctx, checks):
             elif s4 != f4:
                 _v(ctx, "C07", "%s: after v2.3 saves the same object writes a different v2.4 tag than a fresh object (the conversion leaked into memory)" % lab,
                    dict(d, len_same=len(s4), len_fresh=len(f4)))
+
+
+def c07_mp4_partial_text_atom(ctx, checks):
+    """an ilst text atom whose first data child is fine and whose later child is of a kind mutagen does not read (UTF-16,
+    a foreign child atom): an unmodified load+save keeps the WHOLE atom, byte for byte (own atom walker),
+    and a second save changes nothing"""
+    if "C07" not in checks:
+        return
+    from . import synth
+    kind = KINDS["MP4"]
+    base = [(s_, d) for s_, d in kind.samples() if not s_.startswith("synth")]
+    variants = [
+        ("utf16-second", lambda A, D: A(b"\xa9wrt", D(1, b"first value") + D(2, "second \u00e4".encode("utf-16-be")))),
+        ("foreign-child-second", lambda A, D: A(b"\xa9wrt", D(1, b"first value") + A(b"name", b"\x00\x00\x00\x00x"))),
+        ("three-children", lambda A, D: A(b"\xa9wrt", D(1, b"one") + D(1, b"two") + D(2, b"\x00t\x00h"))),
+    ]
+    for lab, mk in variants:
+        data = None
+        for nm, dd in base:
+            try:
+                data = synth.mp4_opaque_items(dd, only=mk)
+            except Exception:
+                data = None
+            if data:
+                break
+        if not data:
+            continue
+        try:
+            items0 = [x for x in W.mp4(data)["tags"] if x[0] == b"\xa9wrt"]
+            o = kind.open(io.BytesIO(data))
+            b = io.BytesIO(data); o.save(b); d1 = b.getvalue()
+            items1 = [x for x in W.mp4(d1)["tags"] if x[0] == b"\xa9wrt"]
+            b = io.BytesIO(d1); kind.open(io.BytesIO(d1)).save(b); d2 = b.getvalue()
+        except (mutagen.MutagenError, W.Bad) as e:
+            _v(ctx, "C07", "MP4: unmodified load+save of a file with a partly readable text atom failed (%s)" % type(e).__name__, {"kind": "MP4", "variant": lab})
+            continue
+        ctx.oracle_cases += 1
+        ctx.count("c07:mp4-partial-text-atom")
+        ctx.case(("c07-mp4-partial-text", lab))
+        if not items0:
+            continue
+        if items1 != items0:
+            _v(ctx, "C07", "MP4: tag data mutagen cannot interpret lost by an unmodified load+save (text atom with a readable first and an unreadable later value)",
+               {"kind": "MP4", "variant": lab, "before": repr(items0)[:300], "after": repr(items1)[:300]})
+        elif d2 != d1:
+            _v(ctx, "C07", "MP4: second save changes the file (partly readable text atom)", {"kind": "MP4", "variant": lab})
+
+
+def c02_stale_object(ctx, checks):
+    """an object saves into a file that has changed since the object was loaded (retagged through another object, or simply
+    another file of the same format): the save goes by what the file holds NOW -- audio and foreign elements of the file
+    written to stay byte-identical and in order (independent segmentation), and the file still walks"""
+    if "C02" not in checks:
+        return
+    from .shared import foreign_preserved
+    from .engine import safe_walk
+    from props.c19 import add_value
+    for kname, kind in KINDS.items():
+        if kind.is_tagclass:
+            continue
+        plain = [x for x in kind.samples() if not x[0].startswith(("synth", "layout"))][:2]
+        for sample, data in plain:
+            w0, err = safe_walk(kind, data)
+            if w0 is None:
+                continue
+            for grow_other, mine in ((6000, 3), (3, 6000), (40000, 300)):
+                try:
+                    stale = kind.open(io.BytesIO(data))
+                    kind.ensure_tags(stale)
+                    add_value(kind, stale, mine)
+                    other = kind.open(io.BytesIO(data))
+                    kind.ensure_tags(other)
+                    add_value(kind, other, grow_other)
+                    b = io.BytesIO(data); other.save(b); changed = b.getvalue()
+                    b = io.BytesIO(changed); stale.save(b); out = b.getvalue()
+                except mutagen.MutagenError:
+                    continue
+                except Exception as e:
+                    _v(ctx, "C02", "%s: saving into a file that changed since the object was loaded raised %s" % (kname, type(e).__name__),
+                       {"kind": kname, "sample": sample, "other": grow_other, "mine": mine})
+                    continue
+                ctx.oracle_cases += 1
+                ctx.count("c02:stale-object")
+                ctx.case(("c02-stale-object", kname, sample, grow_other, mine))
+                w1, err = safe_walk(kind, out)
+                if w1 is None:
+                    _v(ctx, "C02", "%s: foreign/audio data cannot be located after a save into a file that changed since the object was loaded (%s)" % (kname, str(err)[:80]),
+                       {"kind": kname, "sample": sample, "other": grow_other, "mine": mine})
+                    break
+                bad = foreign_preserved(kind, w0, w1)
+                if bad:
+                    _v(ctx, "C02", "%s: foreign/audio data altered by a save into a file that changed since the object was loaded: %s" % (kname, bad),
+                       {"kind": kname, "sample": sample, "other": grow_other, "mine": mine})
+                    break
 
 
 def c02_stray_tag_marker(ctx, checks):
@@ -842,7 +977,7 @@ OGG_SCENARIOS = (ogg_lacing_sweep, ogg_opus_trailer_sweep, ogg_foreign_paging)
 
 
 def run(ctx, checks, only=None):
-    for fn in only or ((c01_pictures, c01_asf_plain_values, c01_easy_multivalue, c09_easy, c08_ape_stale_fragments, c08_id3_delete_options, c08_tags_delete, c02_stray_tag_marker, c07_v23_same_object) + OGG_SCENARIOS):
+    for fn in only or ((c01_pictures, c01_asf_plain_values, c01_asf_stream_language, c01_easy_multivalue, c09_easy, c08_ape_stale_fragments, c08_id3_delete_options, c08_tags_delete, c02_stray_tag_marker, c02_stale_object, c07_v23_same_object, c07_mp4_partial_text_atom) + OGG_SCENARIOS):
         try:
             fn(ctx, checks)
         except Exception as e:
